@@ -47,6 +47,12 @@ func init() {
 	add("csv-bad-header", false, "toprank-csv", "query", "toprank-csv", "target")
 	add("csv-extra-column", false, "toprank-csv", "query", "toprank-csv", "target")
 	add("csv-malformed-row", true, "toprank-csv", "query", "toprank-csv", "target")
+	// a query list with the header and no rows is accepted (header-only output); a bad --target
+	// next to it is still a bad --target
+	for _, k := range []string{"csv-empty", "csv-bad-header", "csv-extra-column"} {
+		add(k, false, "toprank-csv-noquery", "target")
+	}
+	add("csv-malformed-row", true, "toprank-csv-noquery", "target")
 	add("window-start-0", false, "toma", "", "topa", "")
 	add("window-start-beyond", false, "toma", "", "topa", "")
 	add("window-end-0", false, "toma", "", "topa", "")
@@ -189,13 +195,15 @@ func runC18(c *fw.Ctx, idx int) fw.Result {
 		files["ref"], files["query"], files["target"] = gen.RenderFasta([]gen.FastaRec{b.ref}, 0), gen.RenderFasta(b.queries, 0), gen.RenderFasta(b.targets, 60)
 	case "toprank-csv":
 		files["query"], files["target"] = listCSV(b.queries), listCSV(b.targets)
+	case "toprank-csv-noquery":
+		files["query"], files["target"] = strings.SplitAfter(listCSV(b.queries), "\n")[0], listCSV(b.targets)
 	}
 	recsOf := map[string][]gen.FastaRec{"msa": b.msa, "query": b.queries, "target": b.targets, "ref": {b.ref}}
 	if sp.cmd == "snps" || sp.cmd == "list" {
 		recsOf["query"] = b.targets
 	}
 	ext := map[string]string{"sam": ".sam", "ref": ".fasta", "msa": ".fasta", "query": ".fasta", "target": ".fasta", "anno": "." + b.suffix}
-	if sp.cmd == "toprank-csv" {
+	if strings.HasPrefix(sp.cmd, "toprank-csv") {
 		ext["query"], ext["target"] = ".csv", ".csv"
 	}
 	extra := []string{}
@@ -381,7 +389,7 @@ func runC18(c *fw.Ctx, idx int) fw.Result {
 			a = []string{"closest", "--query", path("query", content), "--target", path("target", content), "-n", "2", "--table"}
 		case "toprank":
 			a = []string{"updown", "topranking", "-r", path("ref", content), "-q", path("query", content), "-t", path("target", content)}
-		case "toprank-csv":
+		case "toprank-csv", "toprank-csv-noquery":
 			a = []string{"updown", "topranking", "-q", path("query", content), "-t", path("target", content)}
 		}
 		if strings.HasPrefix(sp.cmd, "toprank") && !(withExtra && sp.kind == "no-size-option") {
